@@ -46,6 +46,24 @@ v("C04", "nmne-setting-only-when-declared", "break", GAME,
   '''        if "nmne_config" in network_config:
             NetworkInterface.nmne_config = NMNEConfig(**network_config["nmne_config"])''', "R4.1", "a scenario without the section inherits the previous game's NMNE settings")
 
+v("C04", "reset-reseeds-the-process-directly", "break", ENV,
+  '''        if seed is not None:
+            set_random_seed(seed, self.generate_seed_value)
+        self.total_reward_per_episode''',
+  '''        if seed is not None:
+            set_random_seed(seed, self.generate_seed_value)
+        else:
+            random.seed(self.episode_counter)
+        self.total_reward_per_episode''', "R4.1", "global generator written outside set_random_seed")
+v("C04", "unseeded-session-scrambles-the-streams", "break", ENV,
+  '''        else:
+            return None
+    elif seed < -1:''',
+  '''        else:
+            np.random.seed(None)
+            return None
+    elif seed < -1:''', "R4.1", "re-seeding on the no-seed path")
+
 # ------------------------------------------------------------------------------------------------ C05
 v("C05", "unknown-key-success", "break", CORE,
   'return RequestResponse(status="unreachable", data={"reason": msg})',
@@ -929,6 +947,22 @@ v("C03", "draw-under-log-switch", "break", GAME,
 v("C03", "benign-sorted-reverse", "benign", NMAP,
   "        ip_addresses = sorted(self._explode_ip_address_network_array(target_ip_address))\n\n        for ip_address in ip_addresses:\n            # Prevent ping scan",
   "        ip_addresses = sorted(self._explode_ip_address_network_array(target_ip_address), reverse=True)\n\n        for ip_address in ip_addresses:\n            # Prevent ping scan", None, "still a deterministic order")
+
+v("C03", "applications-prepared-in-uuid-order", "break", BASE,
+  '''        for application_id in self.applications:
+            self.applications[application_id].pre_timestep(timestep=timestep)''',
+  '''        for application_id in sorted(self.applications.keys()):
+            self.applications[application_id].pre_timestep(timestep=timestep)''', "R3.6", "iteration ordered by uuid4 keys")
+v("C03", "interfaces-ticked-by-uuid", "break", BASE,
+  '''        for network_interface in self.network_interfaces.values():
+            network_interface.apply_timestep(timestep=timestep)''',
+  '''        for network_interface in sorted(self.network_interfaces.values(), key=lambda nic: nic.uuid):
+            network_interface.apply_timestep(timestep=timestep)''', "R3.6", "sort key reads the identifier")
+v("C03", "benign-interfaces-ticked-by-port-number", "benign", BASE,
+  '''        for network_interface in self.network_interfaces.values():
+            network_interface.apply_timestep(timestep=timestep)''',
+  '''        for network_interface in sorted(self.network_interfaces.values(), key=lambda nic: nic.port_num):
+            network_interface.apply_timestep(timestep=timestep)''', None, "sorted by data, not by identifier")
 
 # ------------------------------------------------------------------------------------------------ C04
 v("C04", "class-level-cache", "break", P + "simulator/system/services/arp/arp.py",
